@@ -10,6 +10,9 @@ import Dawgs.Model.C01S2
 import Dawgs.Model.C01Chain
 import Dawgs.Model.C01Count
 import Dawgs.Model.C01Limit
+import Dawgs.Model.C01With
+import Dawgs.Model.C03Bind
+import Dawgs.Model.SqlSchema
 /-! C01 semantic-search driver (suite `c01sem`, also used by C02).
 
 Input: `sem <gseed> <nrandom> <exN> <exE> <kindmap> <params> <cypher sexp> <sql sexp>` — the parsed Cypher model and the REAL emitted
@@ -498,6 +501,8 @@ def tieStep (_ : Unit) (ts : List String) : Unit × String :=
         let lim := C01.ofCyLimit2 q
         let stage : Option (String × Bool × Bool) := match lim with
           | some l => some ("S2L", l.toCy == q, l.base.wf)
+          | none => match C01.ofCyWith q with
+          | some w => some ("S3a", w.toCy == q, w.wf)
           | none => match C01.ofCy q with
           | some s1 => some ("S1", s1.toCy == q, s1.wf)
           | none => match C01.ofCy2 q with
@@ -516,13 +521,15 @@ def tieStep (_ : Unit) (ts : List String) : Unit × String :=
           if !wf then ((), "outside-fragment not-well-formed-for-" ++ stg) else
           -- the hop's join order is the translator's choice (selectivity heuristic over its Go tree): the real statement must be the
           -- model statement for ONE of the two orders; `dir` records whether it is the order the model's approximation picks
-          let cands := [C01.tr6F (fun _ => false) (fun _ => false) (fun _ => false) true true true km q, C01.tr6F (fun _ => true) (fun _ => true) (fun _ => true) true true true km q].filterMap id
+          let cands := [C01.tr7F (fun _ => false) (fun _ => false) (fun _ => false) true true true km q, C01.tr7F (fun _ => true) (fun _ => true) (fun _ => true) true true true km q].filterMap id
           match cands with
           | [] => ((), "tie-differs model-translator-rejects-a-translated-query")
           | (st0, ps) :: _ =>
             if !((paramsOf pS).map (·.length) == some ps.length) then ((), "tie-differs real-translation-has-parameters") else
             if !(cands.any (fun c => c.1 == s)) then
-              ((), "tie-differs model=" ++ ((toString (repr st0)).replace "\n" " ").replace " " "_" ++ " real=" ++ ((toString (repr s)).replace "\n" " ").replace " " "_")
+              -- is the REAL statement at least closed (C03's verified binder)? if not, the difference is a scoping defect of the real translator
+              let closed := Sql.wellScoped ⟨Sql.schema, ((paramsOf pS).getD []).map (·.1), false⟩ s
+              ((), (if closed then "tie-differs" else "tie-differs-real-statement-not-closed") ++ " model=" ++ ((toString (repr st0)).replace "\n" " ").replace " " "_" ++ " real=" ++ ((toString (repr s)).replace "\n" " ").replace " " "_")
             else
               let dir := if (C01.tr2 km q).map (·.1) == some s then "model" else (if cands.head?.map (·.1) == some s then "unflipped" else "flipped")
               match gs.toNat?, nr.toNat?, en.toNat?, ee.toNat? with
@@ -530,7 +537,7 @@ def tieStep (_ : Unit) (ts : List String) : Unit × String :=
                 let graphs := graphsFor gseed nrandom exN exE
                 let ordered := !q.ret.orderBy.isEmpty
                 -- the hypothesis of the stage's theorem: `GraphOK` for S1, `GraphOK2` for S2b
-                let hypB := fun (g : Graph) => if stg == "S1" || stg == "S1c" then C01.graphOKb km g else C01.graphOK2b km g
+                let hypB := fun (g : Graph) => if stg == "S1" || stg == "S1c" || stg == "S3a" then C01.graphOKb km g else C01.graphOK2b km g
                 let inHyp := graphs.filter hypB
                 let outHyp := graphs.filter (fun g => !hypB g)
                 -- S2L: the reference semantics refuses a LIMIT that has to choose; the theorem speaks about the base query's rows
